@@ -147,6 +147,7 @@ def run(eng, ctx):
                     ctx.check(e.term == ("const", False), "C11.D4", rv.qualname, norm(e.node), expected="failure reported as False", found=show(e.term), **eng.loc(rv, e.node))
                 else:
                     ctx.check(e.term == ("const", True), "C11.D4", rv.qualname, norm(e.node), expected="success reported as True", found=show(e.term), **eng.loc(rv, e.node))
+    SH.receiver_reports_close(eng, ctx, "C11.D4")
     hs = [n for n in walk_no_nested(rv.node) if isinstance(n, ast.ExceptHandler)]
     for h in hs:
         names = {norm(t) for t in (h.type.elts if isinstance(h.type, ast.Tuple) else [h.type])} if h.type is not None else {"*"}
